@@ -72,6 +72,27 @@ theorem parseRGN_total (csiz : Nat) (bs : Bytes) : NoPanicE (parseRGN csiz bs).1
     repeat' split
     all_goals simp
 
+theorem parseMCT_total (bs : Bytes) : NoPanicE (parseMCT bs).1 := by
+  intro s
+  unfold parseMCT
+  split
+  · simp
+  · rename_i length _
+    by_cases h1 : length < 8
+    · rw [if_pos h1]; simp
+    · rw [if_neg h1]
+      have h2 : ¬ ((length : Int) - 2 - 6 < 0) := by omega
+      split
+      · split
+        · simp
+        · split
+          · simp
+          · first
+              | (rw [if_neg h2]; split <;> simp)
+              | (split <;> simp)
+      · split <;> simp
+      · simp
+
 /-- a finishing turn never ends in a panic -/
 def DoneOk (x : Step St) : Prop := ∀ st' o, x = .done st' o → ∀ s, o ≠ .panic s
 
@@ -184,6 +205,53 @@ theorem mCOM_doneOk (st : St) (bs : Bytes) : DoneOk (mCOM st bs) := by
       intro s hc; subst hc
       exact ht s (by rw [he])
 
+theorem mMCT_doneOk (st : St) (bs : Bytes) : DoneOk (mMCT st bs) := by
+  unfold mMCT
+  split
+  · exact doneOk_done_err _
+  · have ht := parseMCT_total (bs.drop 2)
+    split
+    · exact doneOk_next _ _ _
+    · rename_i e a he
+      apply doneOk_done_e
+      intro s hc; subst hc
+      exact ht s (by rw [he])
+
+theorem tMCT_doneOk (st : St) (bs : Bytes) : DoneOk (tMCT st bs) := by
+  unfold tMCT
+  have ht := parseMCT_total (bs.drop 2)
+  split
+  · exact doneOk_next _ _ _
+  · rename_i e a he
+    apply doneOk_done_e
+    intro s hc; subst hc
+    exact ht s (by rw [he])
+
+theorem mMCC_doneOk (st : St) (bs : Bytes) : DoneOk (mMCC st bs) := by
+  unfold mMCC
+  split
+  · exact doneOk_done_err _
+  · split
+    · exact doneOk_next _ _ _
+    · exact doneOk_done_err _
+theorem mMCO_doneOk (st : St) (bs : Bytes) : DoneOk (mMCO st bs) := by
+  unfold mMCO
+  split
+  · exact doneOk_done_err _
+  · split
+    · exact doneOk_next _ _ _
+    · exact doneOk_done_err _
+theorem tMCC_doneOk (st : St) (bs : Bytes) : DoneOk (tMCC st bs) := by
+  unfold tMCC
+  split
+  · exact doneOk_next _ _ _
+  · exact doneOk_done_err _
+theorem tMCO_doneOk (st : St) (bs : Bytes) : DoneOk (tMCO st bs) := by
+  unfold tMCO
+  split
+  · exact doneOk_next _ _ _
+  · exact doneOk_done_err _
+
 theorem mEnd_doneOk (st : St) (bs : Bytes) : DoneOk (mEnd st bs) := by
   unfold mEnd
   split
@@ -192,18 +260,43 @@ theorem mEnd_doneOk (st : St) (bs : Bytes) : DoneOk (mEnd st bs) := by
 
 theorem mainTurn_doneOk (st : St) (bs : Bytes) (m : Nat) : DoneOk (mainTurn st bs m) := by
   unfold mainTurn
-  repeat' split
-  · exact mEnd_doneOk _ _
-  · exact mSIZ_doneOk _ _
-  · exact mCOD_doneOk _ _
-  · exact mCOC_doneOk _ _
-  · exact mQCD_doneOk _ _
-  · exact mQCC_doneOk _ _
-  · exact mPOC_doneOk _ _
-  · exact mRGN_doneOk _ _
-  · exact mCOM_doneOk _ _
-  · exact doneOk_done_beyond _
-  · exact mSkip_doneOk _ _
+  by_cases hc : m = 0xFF90 ∨ m = 0xFFD9
+  · rw [if_pos hc]; exact mEnd_doneOk _ _
+  rw [if_neg hc]; clear hc
+  by_cases hc : m = 0xFF51
+  · rw [if_pos hc]; exact mSIZ_doneOk _ _
+  rw [if_neg hc]; clear hc
+  by_cases hc : m = 0xFF52
+  · rw [if_pos hc]; exact mCOD_doneOk _ _
+  rw [if_neg hc]; clear hc
+  by_cases hc : m = 0xFF53
+  · rw [if_pos hc]; exact mCOC_doneOk _ _
+  rw [if_neg hc]; clear hc
+  by_cases hc : m = 0xFF5C
+  · rw [if_pos hc]; exact mQCD_doneOk _ _
+  rw [if_neg hc]; clear hc
+  by_cases hc : m = 0xFF5D
+  · rw [if_pos hc]; exact mQCC_doneOk _ _
+  rw [if_neg hc]; clear hc
+  by_cases hc : m = 0xFF5F
+  · rw [if_pos hc]; exact mPOC_doneOk _ _
+  rw [if_neg hc]; clear hc
+  by_cases hc : m = 0xFF5E
+  · rw [if_pos hc]; exact mRGN_doneOk _ _
+  rw [if_neg hc]; clear hc
+  by_cases hc : m = 0xFF64
+  · rw [if_pos hc]; exact mCOM_doneOk _ _
+  rw [if_neg hc]; clear hc
+  by_cases hc : m = 0xFF74
+  · rw [if_pos hc]; exact mMCT_doneOk _ _
+  rw [if_neg hc]; clear hc
+  by_cases hc : m = 0xFF75
+  · rw [if_pos hc]; exact mMCC_doneOk _ _
+  rw [if_neg hc]; clear hc
+  by_cases hc : m = 0xFF77
+  · rw [if_pos hc]; exact mMCO_doneOk _ _
+  rw [if_neg hc]; clear hc
+  exact mSkip_doneOk _ _
 
 theorem sodTurn_doneOk (st : St) (p : Part) (bs : Bytes) : DoneOk (sodTurn st p bs) := by
   unfold sodTurn
@@ -262,16 +355,37 @@ theorem tRGN_doneOk (st : St) (p : Part) (bs : Bytes) : DoneOk (tRGN st p bs) :=
 
 theorem thdrTurn_doneOk (st : St) (p : Part) (bs : Bytes) (m : Nat) : DoneOk (thdrTurn st p bs m) := by
   unfold thdrTurn
-  repeat' split
-  · exact sodTurn_doneOk _ _ _
-  · exact tCOD_doneOk _ _ _
-  · exact tCOC_doneOk _ _ _
-  · exact tQCD_doneOk _ _ _
-  · exact tQCC_doneOk _ _ _
-  · exact tPOC_doneOk _ _ _
-  · exact tRGN_doneOk _ _ _
-  · exact doneOk_done_beyond _
-  · exact tSkip_doneOk _ _
+  by_cases hc : m = 0xFF93
+  · rw [if_pos hc]; exact sodTurn_doneOk _ _ _
+  rw [if_neg hc]; clear hc
+  by_cases hc : m = 0xFF52
+  · rw [if_pos hc]; exact tCOD_doneOk _ _ _
+  rw [if_neg hc]; clear hc
+  by_cases hc : m = 0xFF53
+  · rw [if_pos hc]; exact tCOC_doneOk _ _ _
+  rw [if_neg hc]; clear hc
+  by_cases hc : m = 0xFF5C
+  · rw [if_pos hc]; exact tQCD_doneOk _ _ _
+  rw [if_neg hc]; clear hc
+  by_cases hc : m = 0xFF5D
+  · rw [if_pos hc]; exact tQCC_doneOk _ _ _
+  rw [if_neg hc]; clear hc
+  by_cases hc : m = 0xFF5F
+  · rw [if_pos hc]; exact tPOC_doneOk _ _ _
+  rw [if_neg hc]; clear hc
+  by_cases hc : m = 0xFF5E
+  · rw [if_pos hc]; exact tRGN_doneOk _ _ _
+  rw [if_neg hc]; clear hc
+  by_cases hc : m = 0xFF74
+  · rw [if_pos hc]; exact tMCT_doneOk _ _
+  rw [if_neg hc]; clear hc
+  by_cases hc : m = 0xFF75
+  · rw [if_pos hc]; exact tMCC_doneOk _ _
+  rw [if_neg hc]; clear hc
+  by_cases hc : m = 0xFF77
+  · rw [if_pos hc]; exact tMCO_doneOk _ _
+  rw [if_neg hc]; clear hc
+  exact tSkip_doneOk _ _
 
 theorem step_doneOk (st : St) (bs : Bytes) : DoneOk (step st bs) := by
   unfold step
